@@ -733,6 +733,150 @@ def int_conversions(rep: C.Report) -> None:
         ob.detail += f"{type(e).__name__}: {e}"
 
 
+def lookup_terminates(rep: C.Report) -> None:
+    """Ob9: the page lookups the expander relies on cannot recurse without bound.  Call-graph fact over class Wtp: none of
+    get_page, get_page_resolve_redirect, get_page_body, page_exists reaches itself through self.<method>() calls (a redirect
+    is followed for ONE hop; redirect cycles A -> B -> A and A -> A are ordinary data).  z3: reachability in the finite call
+    graph as a fixpoint query.  If a cycle exists, redirect cycles are replayed through expand()."""
+    import ast as _ast
+
+    ob = rep.add(C.Ob("Ob9 page lookups terminate on every store content (no unbounded recursion over redirects)", "z3 reachability over the method call graph (finite) + replay", ["core.py:Wtp.get_page", "core.py:Wtp.get_page_resolve_redirect", "core.py:Wtp.get_page_body", "core.py:Wtp.page_exists"], "call graph of class Wtp restricted to self.<method>() calls; replay: redirect cycles of length 1 and 2, chains of length 3"))
+    try:
+        tree = _ast.parse(open(os.path.join(C.SRC, "core.py")).read())
+        cls = [n for n in tree.body if isinstance(n, _ast.ClassDef) and n.name == "Wtp"]
+        if not cls:
+            ob.verdict, ob.detail = C.NOT_ENCODABLE, "class Wtp not found"
+            return
+        methods = {n.name: n for n in cls[0].body if isinstance(n, _ast.FunctionDef)}
+        edges = {m: {c.func.attr for c in _ast.walk(n) if isinstance(c, _ast.Call) and isinstance(c.func, _ast.Attribute) and isinstance(c.func.value, _ast.Name) and c.func.value.id == "self" and c.func.attr in methods} for m, n in methods.items()}
+        roots = [m for m in ("get_page", "get_page_resolve_redirect", "get_page_body", "page_exists") if m in methods]
+        names = sorted(methods)
+        idx = {m: i for i, m in enumerate(names)}
+        fp = z3.Fixedpoint()
+        fp.set(engine="datalog")
+        V = z3.BitVecSort(12)
+        reach = z3.Function("reach", V, V, z3.BoolSort())
+        edge = z3.Function("edge", V, V, z3.BoolSort())
+        fp.register_relation(reach, edge)
+        a, b, c = z3.Consts("a b c", V)
+        fp.declare_var(a, b, c)
+        fp.rule(reach(a, b), edge(a, b))
+        fp.rule(reach(a, c), [reach(a, b), edge(b, c)])
+        for m, outs in edges.items():
+            for o in outs:
+                fp.fact(edge(z3.BitVecVal(idx[m], V), z3.BitVecVal(idx[o], V)))
+        cyc = []
+        for r in roots:
+            q = fp.query(reach(z3.BitVecVal(idx[r], V), z3.BitVecVal(idx[r], V)))
+            ob.queries += 1
+            ob.paths += 1
+            ob.conditions += 1
+            if str(q) == "unsat":
+                ob.confirmed_conditions += 1
+            else:
+                cyc.append(r)
+        ob.samples.append({"lookup_methods": roots, "calls": {m: sorted(edges[m]) for m in roots}, "recursive": cyc})
+        if not cyc and not C.distrust():
+            ob.verdict = C.DISCHARGED
+            return
+        import signal
+
+        from wikitextprocessor import Wtp
+
+        def _alarm(sig, frm):
+            raise TimeoutError("lookup did not return within 20 s")
+
+        w = Wtp(quiet=True, quiet_output=True)
+        w.add_page("Template:ok", 10, "OK")
+        w.add_page("Template:r1", 10, None, redirect_to="Template:ok")
+        w.add_page("Template:r2", 10, None, redirect_to="Template:r1")
+        w.add_page("Template:r3", 10, None, redirect_to="Template:r2")
+        w.add_page("Template:selfie", 10, None, redirect_to="Template:selfie")
+        w.add_page("Template:ping", 10, None, redirect_to="Template:pong")
+        w.add_page("Template:pong", 10, None, redirect_to="Template:ping")
+        old = signal.signal(signal.SIGALRM, _alarm)
+        try:
+            for doc in ("{{r1}}", "{{r3}}", "{{selfie}}", "{{ping}}", "{{#if:1|{{pong}}}}", "{{PAGESIZE:Template:selfie}}", "{{#ifexist:Template:ping|y|n}}"):
+                w.start_page("T")
+                signal.alarm(20)
+                try:
+                    r = w.expand(doc)
+                    bad = None if isinstance(r, str) else f"returns {type(r).__name__}"
+                except (Exception, RecursionError) as e:  # noqa: BLE001
+                    bad = f"raises {type(e).__name__}: {str(e)[:60]}"
+                    w.expand_stack = []
+                finally:
+                    signal.alarm(0)
+                if bad:
+                    v = rep.violation(f"store with redirects r1->ok, r2->r1, r3->r2, selfie->selfie, ping->pong, pong->ping: expand({doc!r})", f"expand() {bad}", {"doc": doc})
+                    ob.verdict = C.VIOLATED if v.known is None else C.KNOWN
+                    return
+        finally:
+            signal.signal(signal.SIGALRM, old)
+        ob.detail = f"lookup method(s) {cyc} reach themselves in the call graph, but redirect cycles and chains expand without an exception -> inconclusive"
+    except Exception as e:  # noqa: BLE001
+        ob.detail += f"{type(e).__name__}: {e}"
+
+
+def placeholder_input(rep: C.Report, pid: str = "C05") -> None:
+    """Input that itself contains a code point of the expander's internal cookie range (read from common.py: MAGIC_FIRST ..
+    MAGIC_LAST, Supplementary Private Use Area-B) is indistinguishable from a cookie.  z3 picks the smallest Unicode scalar
+    value inside the range (the input alphabet is all scalar values, so the intersection is not empty); documents carrying
+    that character are replayed.  Recorded findings (see known_findings.json): nothing at the API boundary escapes them."""
+    from wikitextprocessor.common import MAGIC_FIRST, MAGIC_LAST
+
+    ob = rep.add(C.Ob("Ob10 input containing a code point of the internal placeholder range" if pid == "C05" else "Ob9 input containing a code point of the internal placeholder range", "z3 (range intersection, optimisation) + replay", ["common.py:MAGIC_FIRST..MAGIC_LAST", "core.py:Wtp._encode / _finalize_expand", "parser.py:process_text"], "all Unicode scalar values as input characters; replay with the smallest one inside the range"))
+    try:
+        o = z3.Optimize()
+        c = z3.Int("c")
+        o.add(c >= 0, c <= 0x10FFFF, z3.Not(z3.And(c >= 0xD800, c <= 0xDFFF)), c >= MAGIC_FIRST, c <= MAGIC_LAST)
+        o.minimize(c)
+        r = str(o.check())
+        ob.queries = ob.paths = ob.conditions = 1
+        if r != "sat":
+            ob.verdict = C.DISCHARGED
+            ob.confirmed_conditions = 1
+            return
+        ch = chr(o.model()[c].as_long())
+        ob.samples.append({"witness_code_point": f"U+{ord(ch):06X}"})
+        from wikitextprocessor import Wtp
+
+        w = Wtp(quiet=True, quiet_output=True)
+        w.add_page("Template:t", 10, "[{{{1|}}}]")
+        vs = []
+        if pid == "C05":
+            for pre, post in (("[[", "]]"), ("{{t|", "}}"), ("{{#if:", "|a|b}}"), ("", "")):
+                w.start_page("T")
+                try:
+                    w.expand(pre + ch + post)
+                except (Exception, RecursionError) as e:  # noqa: BLE001
+                    vs.append(rep.violation(f"expand({pre!r} + chr(0x{ord(ch):X}) + {post!r})", f"expand() raises {type(e).__name__}: the character is taken for the expander's own cookie number 0", {"cp": ord(ch)}))
+                    w.expand_stack = []
+                    break
+        else:
+            w.start_page("T")
+            root = w.parse("x" + ch + "y")
+
+            def walk(n):
+                for k in getattr(n, "children", []):
+                    if isinstance(k, str):
+                        if any(MAGIC_FIRST <= ord(q) <= MAGIC_LAST for q in k):
+                            return True
+                    elif walk(k):
+                        return True
+                return False
+
+            if walk(root):
+                vs.append(rep.violation(f"parse('x' + chr(0x{ord(ch):X}) + 'y')", "the returned tree contains a character of the internal placeholder range", {"cp": ord(ch)}))
+        if vs:
+            ob.verdict = C.VIOLATED if any(v.known is None for v in vs) else C.KNOWN
+            ob.confirmed_conditions = 1
+        else:
+            ob.detail = "the placeholder range intersects the input alphabet but the replay documents behave -> inconclusive"
+    except Exception as e:  # noqa: BLE001
+        ob.detail += f"{type(e).__name__}: {e}"
+
+
 def run(rep: C.Report) -> None:
     quick = C.tier() == "quick"
     rep.explanation = "Parser-function totality: every distinct implementation in the live PARSER_FUNCTIONS table is called through call_parser_function with 0..3(4) symbolic string arguments (full Unicode, bounded length) and an identity expander, and once with an arbitrary expander (each expansion result a fresh symbolic string); any exception or non-str result is a counterexample, replayed through Wtp.expand or a direct call. Loop detector and depth guard are decided separately."
@@ -760,6 +904,8 @@ def run(rep: C.Report) -> None:
     expr_totality(rep, quick)
     namespace_index(rep)
     int_conversions(rep)
+    lookup_terminates(rep)
+    placeholder_input(rep)
     depth_guard(rep)
     loop_check_order(rep)
     try:
